@@ -28,6 +28,18 @@ CHECKS = {
         note='Bounded: |a|,|b| <= 7 exhaustively plus {100, 40000} (TLC 32-bit integers); rows <= 5; CssDecl.NthHolds trusted as '
              'the reading of Selectors 4 / CSS Syntax 3 An+B.',
         technique='TLA+ An+B definition + micro-syntax, TLC enumeration replayed into the code; TLC trace validation of recorded selects'),
+    'C03': dict(
+        category='model_checking',
+        text='Api.tla states each entry point (select, iselect, select_one, match, filter(tag), filter(iterable), closest) as a '
+             'view of the single relation CssDecl!Matches with the call target as scope; TLC checks the view theorems '
+             '(prefix/limit, never-self, never-document) and enumerates all trees <= 3-4 nodes x entry point x target x limit x '
+             'presence of namespaces/custom; each predicted outcome is replayed into the module-level function (keyword and '
+             'positional) and into compile(...).method(...), with and without DEBUG; recorded random calls are validated by TLC '
+             '(Trace_Api).',
+        design_ref='§6 C03',
+        note='Bounded: trees <= 4 nodes exhaustively, random trees <= 12 nodes in traces; 10-selector pool chosen to make '
+             'every optional argument observable.',
+        technique='TLA+ view definitions over one match relation; TLC-enumerated calls replayed into both API layers; TLC trace validation'),
 }
 
 PENDING = {}
